@@ -310,6 +310,26 @@ def rule_echo(ck, consts):
             ck.ob(R, hm, node.ast, ok, "close reason = payload after the two code bytes")
     ck.floor(R, n_code, 1, "close_code assignments")
     ck.floor(R, n_reason, 1, "close_reason assignments")
+    # for which payload lengths are code / reason taken?  (folded for lengths 0..6 from the guards that dominate the stores)
+    for node in hm.cfg.stmt_nodes(lambda n: n.kind == "stmt" and isinstance(n.ast, ast.Assign)):
+        ap = q.assigned_paths(node.ast)
+        which = "code" if "self.close_code" in ap else ("reason" if "self.close_reason" in ap else None)
+        if which is None:
+            continue
+        lens = set(range(0, 7))
+        for (txt, pol) in facts[node.id]:
+            try:
+                e = ast.parse(txt, mode="eval").body
+            except SyntaxError:
+                continue
+            if any(q.is_call(x, "len") and x.args and q.dotted(x.args[0]) == data for x in ast.walk(e)):
+                try:
+                    lens = {k for k in lens if bool(q.fold(e, {data: "x" * k})) == pol}
+                except q.NotFoldable:
+                    raise AnalysisError("_handle_message: length guard %s of the close payload does not fold" % txt)
+        want = {2, 3, 4, 5, 6} if which == "code" else {3, 4, 5, 6}
+        ck.ob(R, hm, node.ast, lens == want, "the close %s is taken exactly for payload lengths %s (of 0..6; got %s)" % (which, ">= 2" if which == "code" else "> 2", sorted(lens)),
+              construct="close %s parsed for lengths %s" % (which, sorted(lens)))
 
 
 def rule_teardown(ck, consts):
@@ -432,6 +452,121 @@ def rule_ping_timeout(ck, consts):
         ck.ob(R, sp, node.ast, holds(facts[node.id], "self._ping_coroutine", False), "a new pinger is started only when none is running")
 
 
+def rule_close_payload(ck, consts):
+    """close(code, reason): payload = 2-byte big-endian code [+ utf8 reason]; a reason without a code gets 1000."""
+    R = "C16.close-payload"
+    cl = ck.func(W, P13 + ".close")
+    ps = [p for p in cl.params() if p != "self"]
+    if len(ps) < 2:
+        raise AnalysisError("close(): expected (code, reason)")
+    cp, rp = ps[0], ps[1]
+    writes = cl.cfg.find(lambda x: q.is_call(x, "self._write_frame"))
+
+    def ut(n, u, env):
+        tags = dict(u)
+        if n.kind == "stmt" and isinstance(n.ast, (ast.Assign, ast.AugAssign)) and n.ast.value is not None:
+            v = n.ast.value
+
+            def part(e):
+                if isinstance(e, ast.Constant) and e.value == b"":
+                    return ()
+                if q.is_call(e, "struct.pack") and len(e.args) == 2 and isinstance(e.args[0], ast.Constant) and e.args[0].value in (">H", "!H"):
+                    return (("code", X.fold_in(e.args[1], env, "?")),)
+                if isinstance(e, ast.Call) and q.call_attr(e) in ("utf8", "encode") and (q.dotted(e.args[0]) if e.args else q.dotted(getattr(e.func, "value", None))) == rp:
+                    return (("reason",),)
+                if isinstance(e, ast.BinOp) and isinstance(e.op, ast.Add):
+                    a, b = part(e.left), part(e.right)
+                    return None if a is None or b is None else a + b
+                if isinstance(e, ast.IfExp):
+                    t = X.fold_in(e.test, env, "?")
+                    if t == "?":
+                        return None
+                    return part(e.body if t else e.orelse)
+                d = q.dotted(e) if isinstance(e, (ast.Name, ast.Attribute)) else None
+                if d is not None and d in tags:
+                    return tags[d]
+                return None
+
+            tg = [q.dotted(t) for t in (n.ast.targets if isinstance(n.ast, ast.Assign) else [n.ast.target])]
+            pv = part(v)
+            for t in tg:
+                if t is None or t in (cp, rp):
+                    continue
+                if isinstance(n.ast, ast.AugAssign):
+                    old_ = tags.get(t)
+                    tags[t] = None if (old_ is None or pv is None or not isinstance(n.ast.op, ast.Add)) else old_ + pv
+                elif pv is not None:
+                    tags[t] = pv
+                else:
+                    tags.pop(t, None)
+        return tuple(sorted(tags.items(), key=lambda kv: kv[0]))
+
+    for code in (None, 1001):
+        for reason in (None, "bye"):
+            seen = X.explore_consts(cl.cfg, consts, init_env={cp: code, rp: reason}, assume={"self.server_terminated": False, "self.stream.closed()": False}, uinit=(), utransfer=ut)
+            got = set()
+            for node, c in writes:
+                for env, u in X.states_at(seen, node):
+                    payload = dict(u).get(q.dotted(c.args[2]) or "?") if len(c.args) > 2 else None
+                    got.add((X.fold_in(c.args[0], env, "?"), X.fold_in(c.args[1], env, "?"), payload))
+            if any(g[2] is None for g in got):
+                raise AnalysisError("close(): the composition of the close frame payload is not modelled (expected b'' / struct.pack('>H', code) [+ utf8(reason)])")
+            if code is None and reason is None:
+                want = ()
+            else:
+                want = (("code", code if code is not None else 1000),) + ((("reason",),) if reason is not None else ())
+            ck.ob(R, cl, cl.node, got == {(True, 8, want)}, "close(code=%r, reason=%r) writes one final close frame whose payload is %s (got %s)" % (code, reason, want or "empty", sorted(map(repr, got))),
+                  construct="close(%r,%r) -> %s" % (code, reason, sorted(map(repr, got))))
+
+
+def rule_client_notify(ck):
+    R = "C16.notify-once"
+    fi = ck.func(W, "WebSocketClientConnection.on_connection_close")
+    sites = fi.cfg.find(lambda x: q.is_call(x, "self._on_message"))
+    ids = {n.id for n, _c in sites}
+    for _n, c in sites:
+        ck.ob(R, fi, c, len(c.args) == 1 and isinstance(c.args[0], ast.Constant) and c.args[0].value is None, "the client's reader is told about the close with the None message")
+    seen = explore(fi.cfg, 0, lambda n, v: min(v + (1 if n.id in ids else 0), 2), lambda t: False, follow_exc=False)
+    cnts = {v for _f, v in seen.get(fi.cfg.exit.id, ())}
+    ck.ob(R, fi, fi.node, cnts == {1}, "WebSocketClientConnection.on_connection_close delivers the None message exactly once on every normal path (counts %s)" % sorted(cnts), construct="client None message counts %s" % sorted(cnts))
+    # a connect() still pending is failed, guarded by done()
+    facts = must_facts(fi.cfg)
+    for node, c in fi.cfg.find(lambda x: isinstance(x, ast.Call) and isinstance(x.func, ast.Attribute) and x.func.attr == "set_exception" and q.dotted(x.func.value) == "self.connect_future"):
+        ck.ob(R, fi, c, holds(facts[node.id], "self.connect_future.done()", False), "the pending connect future is failed only if it is not done yet")
+    om = ck.func(W, "WebSocketClientConnection._on_message")
+    mp = [p for p in om.params() if p != "self"][0]
+    outs = [c for c in q.calls(om.node) if (q.is_call(c, "self._on_message_callback") or q.is_call(c, "self.read_queue.put")) and len(c.args) == 1 and q.dotted(c.args[0]) == mp]
+    ck.ob(R, om, om.node, len(outs) >= 2, "_on_message hands its argument (message or None) to the callback or the read queue unchanged", construct="_on_message sinks: %d" % len(outs))
+
+
+def rule_is_closing(ck):
+    R = "C16.no-data-after-close"
+    ic = ck.func(W, P13 + ".is_closing")
+    rets = [x for x in q.walk_body(ic.node) if isinstance(x, ast.Return) and x.value is not None]
+    if len(rets) != 1:
+        raise AnalysisError("is_closing: expected a single return expression")
+    import copy
+
+    class T(ast.NodeTransformer):
+        def visit_Call(self, node):
+            if q.is_call(node, "self.stream.closed"):
+                return ast.Name(id="__stream_closed", ctx=ast.Load())
+            return self.generic_visit(node)
+
+    e = T().visit(copy.deepcopy(rets[0].value))
+    bad = []
+    for sc in (False, True):
+        for ct in (False, True):
+            for st_ in (False, True):
+                try:
+                    v = bool(q.fold(e, {"__stream_closed": sc, "self.client_terminated": ct, "self.server_terminated": st_}))
+                except q.NotFoldable:
+                    raise AnalysisError("is_closing: return expression %s does not fold" % q.unparse(rets[0].value))
+                if v != (sc or ct or st_):
+                    bad.append((sc, ct, st_, v))
+    ck.ob(R, ic, rets[0].value, not bad, "is_closing() is true exactly when the stream is closed or either side has started closing (all 8 combinations; mismatches %s)" % bad)
+
+
 def rule_closed_error(ck):
     R = "C16.closed-error"
     wm = ck.func(W, P13 + ".write_message")
@@ -459,6 +594,7 @@ def run(ck):
     ck.rule("C16.echo", "a received close frame sets client_terminated, parses code/reason and calls close(self.close_code) exactly once")
     ck.rule("C16.teardown", "close(): stream closed once both sides closed; the closing timer (-> _abort) is armed only when unset and removed on teardown; pinger cancelled; delegates drop the protocol after close")
     ck.rule("C16.ping-timeout", "periodic_ping resets the pong flag each round in the section that sends the ping, a pong sets it, a missed pong calls close() once and stops")
+    ck.rule("C16.close-payload", "close(code, reason) writes exactly one final opcode-8 frame: empty, or 2-byte big-endian code (1000 when only a reason is given) followed by the UTF-8 reason")
     ck.rule("C16.closed-error", "stream-closed failures of write_message surface as WebSocketClosedError (sync and async)")
     consts = X.class_consts(ck.repo, W, P13)
     rule_one_close_frame(ck, consts)
@@ -468,6 +604,9 @@ def run(ck):
     rule_echo(ck, consts)
     rule_teardown(ck, consts)
     rule_ping_timeout(ck, consts)
+    rule_close_payload(ck, consts)
+    rule_is_closing(ck)
+    rule_client_notify(ck)
     rule_closed_error(ck)
 
 
@@ -516,7 +655,30 @@ def _reset_before_loop(root):
     return False
 
 
+def _drop_handler(name):
+    def edit(root):
+        for n in ast.walk(root):
+            if isinstance(n, ast.Try):
+                hs = [h for h in n.handlers if h.type is not None and _src(h.type) == name]
+                if hs and len(n.handlers) > 1:
+                    n.handlers.remove(hs[0])
+                    return True
+        return False
+
+    return edit
+
+
 MUTANTS = [
+    ("seeded C16-adv1: close echo only `if not self.server_terminated`", _in(P13 + "._handle_message", replace_stmt(lambda st: _src(st) == "self.close(self.close_code)", lambda st: [ast.If(test=parse_expr("not self.server_terminated"), body=[st], orelse=[])])), "C16.echo"),
+    ("teardown branch of close() only when we had not closed first", _in(P13 + ".close", replace_expr(lambda n: isinstance(n, ast.Attribute) and n.attr == "client_terminated" and isinstance(n.ctx, ast.Load), lambda n: parse_expr("(self.client_terminated and self._waiting is None)"))), "C16.teardown"),
+    ("is_closing() ignores that we already sent our close frame", _in(P13 + ".is_closing", replace_expr(lambda n: isinstance(n, ast.BoolOp), lambda n: ast.BoolOp(op=n.op, values=n.values[:2]))), "C16.no-data-after-close"),
+    ("undo the G5-2 repair: the receive loop handles only StreamClosedError", _in(P13 + "._receive_frame_loop", _drop_handler("Exception")), "C16.notify-once"),
+    ("broad loop handler returns before the close notification", _in(P13 + "._receive_frame_loop", lambda root: bool([h.body.append(parse_stmt("return")) for n in ast.walk(root) if isinstance(n, ast.Try) for h in n.handlers if h.type is not None and _src(h.type) == "Exception"])), "C16.notify-once"),
+    ("close code parsed only when a reason follows (>= 2 -> > 2)", _in(P13 + "._handle_message", replace_expr(lambda n: isinstance(n, ast.Compare) and _src(n) == "len(data) >= 2", lambda n: parse_expr("len(data) > 2"))), "C16.echo"),
+    ("reason without code sent without the 1000 default", _in(P13 + ".close", remove_stmts(lambda st: isinstance(st, ast.If) and "reason is not None" in _src(st.test) and "code is None" in _src(st.test))), "C16.close-payload"),
+    ("close code packed little-endian", _in(P13 + ".close", replace_expr(lambda n: isinstance(n, ast.Constant) and n.value == ">H", lambda n: ast.Constant(value="<H"))), "C16.close-payload"),
+    ("close reason dropped from the frame", _in(P13 + ".close", remove_stmts(lambda st: isinstance(st, ast.If) and _src(st.test) == "reason is not None" and "close_data" in _src(st))), "C16.close-payload"),
+    ("client reader never told about the close", _in("WebSocketClientConnection.on_connection_close", remove_stmts(lambda st: _src(st) == "self._on_message(None)")), "C16.notify-once"),
     ("close() forgets server_terminated = True", _in(P13 + ".close", remove_stmts(lambda st: _src(st) == "self.server_terminated = True")), "C16.one-close-frame"),
     ("close frame written regardless of server_terminated", _in(P13 + ".close", replace_expr(lambda n: isinstance(n, ast.UnaryOp) and _src(n) == "not self.server_terminated", lambda n: ast.Constant(value=True))), "C16.one-close-frame"),
     ("server_terminated set only when the write succeeded", _in(P13 + ".close", lambda root: _set_in_try(root)), "C16.one-close-frame"),
